@@ -207,6 +207,22 @@ def hand_step(solver, nsteps):
     return states, dts
 
 
+def update_once(solver, state, step, time, dt):
+    """One call of the documented `update` with an arbitrary state dict (as returned by hand_step), not necessarily the one the
+    previous call produced."""
+    from tdgl.solver.runner import RunningState
+
+    opts = solver.options
+    sizes = {"dt": 1}
+    if solver.probe_points is not None:
+        sizes["mu"] = len(solver.probe_points)
+        sizes["theta"] = len(solver.probe_points)
+    if opts.include_screening:
+        sizes["screening_iterations"] = 1
+    rs = RunningState(sizes, 1)
+    return solver.update({"step": step, "time": time, "dt": dt}, rs, dt, **state)
+
+
 def read_raw_mesh(path):
     """RawMesh from an output file (top-level mesh of an unfinished run, or the device mesh of a finished one)."""
     import h5py
